@@ -484,6 +484,9 @@ def part_recipe(rng, node=None, simple=0.5):
         vleaf = L("value", "equal_to", rng.choice(scal))
         if isinstance(node, list):
             stranger = L("key", rng.choice(["equal_to", "less_than"]), rng.randrange(len(node)))
+            if rng.random() < 0.4:       # Key.length / Key.dtype conditions are key conditions all the same
+                stranger = ("leaf", {"datum": "key", "pre": rng.choice(["dtype", "length"]), "fn": "equal_to",
+                                     "actuals": [rng.choice([int, 1])], "akw": {}})
             own = {"index": L("index", "less_than", len(node)), "key": None}
         else:
             ks = [k for k in node if isinstance(k, int)] or [0]
@@ -535,7 +538,12 @@ def prim_part(rng, node):
         if ks:
             return ("prim", rng.choice(ks))
     if isinstance(node, list) and node and rng.random() < 0.85:
-        return ("prim", rng.randrange(len(node)))
+        j = rng.randrange(len(node))
+        if j in (0, 1) and rng.random() < 0.12:
+            return ("prim", bool(j))               # a boolean part is an index too (False = 0, True = 1)
+        if rng.random() < 0.04:
+            return ("prim", float(j))              # ... an integral float is not (it is a mapping key only)
+        return ("prim", j)
     return ("prim", rng.choice(STR_KEYS + [0, 1, 2, 1.5, True, 5]))
 
 
